@@ -282,7 +282,15 @@ func RunWorker(c *Check, phaseName, tier string, seed int64, k, n, from, only in
 				os.Exit(3)
 			}
 			if time.Since(st) > hard {
-				emit(out, workerMsg{Kind: "hang", Idx: idx, Stack: trimStack(s2), Desc: desc})
+				// a hang is a verdict about the code under observation: some
+				// goroutine must be inside badwolf code in both snapshots. When
+				// only the harness's own code is running (a loaded machine, an
+				// expensive oracle) the case is given up as inconclusive.
+				kind := "hang"
+				if !EngineInvolved(s1) || !EngineInvolved(s2) {
+					kind = "slow"
+				}
+				emit(out, workerMsg{Kind: kind, Idx: idx, Stack: trimStack(s2), Desc: desc})
 				os.Exit(4)
 			}
 		}
@@ -413,6 +421,30 @@ func AllBlocked(dump string) bool {
 		}
 	}
 	return any
+}
+
+// EngineInvolved says whether some goroutine of a case has a badwolf function as
+// its innermost frame outside the Go runtime and standard library.
+func EngineInvolved(dump string) bool {
+	for _, g := range ParseStacks(dump) {
+		if isHarnessInfra(g) {
+			continue
+		}
+		lines := strings.Split(g.Stack, "\n")
+		for _, l := range lines[1:] {
+			if l == "" || l[0] == '\t' || strings.HasPrefix(l, "created by ") {
+				continue
+			}
+			if strings.HasPrefix(l, "github.com/google/badwolf/") {
+				return true
+			}
+			if strings.HasPrefix(l, "bwverif/") || strings.HasPrefix(l, "main.") || strings.HasPrefix(l, "github.com/anishathalye/") {
+				break // innermost frame outside runtime / std belongs to the harness
+			}
+			// runtime., sync., time., strings., sort. ...: keep looking outwards
+		}
+	}
+	return false
 }
 
 func blockedSignature(dump string) string {
@@ -693,7 +725,7 @@ func runOneWorker(c *Check, ph Phase, tier string, seed int64, k, n, from int, a
 			done = true
 		case "recycle":
 			recycle = true
-		case "deadlock", "hang":
+		case "deadlock", "hang", "slow":
 			mm := m
 			special = &mm
 		}
@@ -730,6 +762,23 @@ func runOneWorker(c *Check, ph Phase, tier string, seed int64, k, n, from int, a
 	}
 	tail := tailFile(stderrPath, 8000)
 	v := Viol{Phase: ph.Name, Case: culprit}
+	if special != nil && special.Kind == "slow" {
+		// the harness itself was still working at the hard limit: no verdict
+		a.mu.Lock()
+		a.counts["inconclusive"]++
+		a.incon = append(a.incon, fmt.Sprintf("case %d of %s was still running harness code at the hard watchdog (loaded machine?): %s", culprit, ph.Name, oneLine(firstNonEmpty(special.Desc, sub))))
+		a.mu.Unlock()
+		os.Remove(journal)
+		os.Remove(stderrPath)
+		nx := culprit + 1
+		for nx%n != k {
+			nx++
+		}
+		if nx >= ph.N {
+			return 0, false
+		}
+		return nx, true
+	}
 	switch {
 	case special != nil && special.Kind == "deadlock":
 		v.Key = "deadlock/" + deadlockClass(special.Stack)
